@@ -9,6 +9,7 @@ event history is run on the original and on the rebuilt machine (callbacks by na
 model classes of this module record traces)."""
 import contextlib
 import copy
+import enum
 import json
 import os
 import sys
@@ -35,11 +36,14 @@ RULE = ('cases = random flat (1-5 states) or hierarchical (2-4 top-level states,
         'final markup; every 10th case is drawn from one of the three known-finding classes (KF-C14-1/2/3). Non-trivial: the '
         'script contains a modification after a markup read (cache must be refreshed) and the final markup has '
         '>= 2 transitions of which one carries a condition or callback list, distinct by hash of the case.')
+_ENUM_NOTE = ('(in 30% of the cases every state is handed to the library as an Enum member - names, initial members and '
+              'LISTS of initial members, "parallel" children, sources, destinations, model states - and the markup '
+              'must still consist of plain names that survive json.dumps) ')
 _NOTE = ('(state names are drawn from plain letters or from a pool that stresses the auto-transition heuristic: names '
          'starting with t / o / _, containing "to_", prefixes and suffixes of each other; user events that resemble '
          'automatic ones without being of the form to_<...>) ')
 assert _NOTE in RULE
-RULE = RULE.replace(_NOTE, '').replace('machine descriptions with', 'machine descriptions ' + _NOTE + 'with', 1)
+RULE = RULE.replace(_NOTE, '').replace('machine descriptions with', 'machine descriptions ' + _NOTE + _ENUM_NOTE + 'with', 1)
 ASSUMPTIONS = ['callbacks are given by name (strings) and resolved on the model; they neither raise nor call back '
                'into the machine',
                'state names and triggers are identifiers without the separator "_" (hierarchical) that are not '
@@ -95,7 +99,17 @@ def generated_hook():
 
 
 # ------------------------------------------------------------------ model classes (importable by dotted path)
-ENV = {'seed': 0, 'trace': [], 'count': 0, 'attr': 'state'}
+ENV = {'seed': 0, 'trace': [], 'count': 0, 'attr': 'state', 'paths': {}}
+
+
+def _norm(st):
+    """a model state as (nested lists of) joined names: Enum members of the original machine are replaced by the
+    path of the state they name, so that the original (Enum) and the rebuilt (string) machine are comparable"""
+    if isinstance(st, (list, tuple)):
+        return [_norm(x) for x in st]
+    if isinstance(st, enum.Enum):
+        return ENV['paths'].get(st, 'ENUM:' + st.name)
+    return st
 
 
 def _mix(seed, name, n):
@@ -112,10 +126,10 @@ class _Base(object):
                 ENV['count'] += 1
                 st = getattr(self, ENV['attr'], None)
                 if name[0] == 'k':
-                    ENV['trace'].append([name, repr(st)])
+                    ENV['trace'].append([name, repr(_norm(st))])
                     return None
                 res = _mix(ENV['seed'], name, ENV['count']) % 10 < 7
-                ENV['trace'].append([name, repr(st), res])
+                ENV['trace'].append([name, repr(_norm(st)), res])
                 return res
             return cb
         raise AttributeError(name)
@@ -296,18 +310,60 @@ def enc_real_markup(mk, hsm):
 
 
 # ------------------------------------------------------------------ implementation runner
-def _real_tdict(t):
-    d = dict(trigger=t['trigger'], source=t['source'])
+class Names(object):
+    """How state names are handed to the library: as strings, or (enum mode) as members of Enum classes - one class
+    per scope of the description, one more class per state added later."""
+
+    def __init__(self, use_enum, hsm):
+        self.use_enum, self.hsm = use_enum, hsm
+        self.members = {}            # (scope tuple, name) -> member
+        self.n = 0
+
+    def declare(self, scope, sdicts):
+        if not self.use_enum or not sdicts:
+            return
+        self.n += 1
+        cls = enum.Enum('S%d' % self.n, [s['name'] for s in sdicts])
+        for s in sdicts:
+            mem = cls[s['name']]
+            self.members[(tuple(scope), s['name'])] = mem
+            ENV['paths'][mem] = '_'.join(list(scope) + [s['name']])
+            self.declare(list(scope) + [s['name']], s['children'])
+
+    def local(self, scope, name):
+        """a name of the scope itself"""
+        return self.members[(tuple(scope), name)] if self.use_enum else name
+
+    def ref(self, scope, name):
+        """a source / destination as written in a transition of [scope]: local name, or joined path at the root"""
+        if not self.use_enum:
+            return name
+        if not scope and self.hsm:
+            path = name.split('_')
+            return self.members[(tuple(path[:-1]), path[-1])]
+        return self.members[(tuple(scope), name)]
+
+    def mstate(self, ms):
+        if isinstance(ms, dict):
+            return [self.mstate(x) for x in ms['par']]
+        if not self.use_enum:
+            return '_'.join(ms)
+        return self.members[(tuple(ms[:-1]), ms[-1])]
+
+
+def _real_tdict(t, nm, scope):
+    d = dict(trigger=t['trigger'], source=nm.ref(scope, t['source']))
     if t['dest'] is not None:
-        d['dest'] = t['dest']
+        d['dest'] = nm.ref(scope, t['dest'])
     for k in ('conditions', 'unless', 'prepare', 'before', 'after'):
         if t[k]:
             d[k] = list(t[k])
     return d
 
 
-def _real_sdict(s):
-    d = dict(name=s['name'])
+def _real_sdict(s, nm, scope, par_key=False):
+    """the state as handed to add_states (the members of [scope] must have been declared)"""
+    d = dict(name=nm.local(scope, s['name']))
     for k in ('on_enter', 'on_exit', 'on_final'):
         if s[k]:
             d[k] = list(s[k])
@@ -315,18 +371,22 @@ def _real_sdict(s):
         d['ignore_invalid_triggers'] = s['ignore']
     if s['final']:
         d['final'] = True
-    if s['initial'] is not None:
-        d['initial'] = copy.deepcopy(s['initial'])
+    inner = list(scope) + [s['name']]
+    kids = [_real_sdict(c, nm, inner, par_key) for c in s['children']]
+    if s['children'] and isinstance(s['initial'], list) and par_key \
+            and s['initial'] == [c['name'] for c in s['children']]:
+        d['parallel'] = kids         # short form of children + initial = all children
+    else:
+        if s['initial'] is not None:
+            d['initial'] = ([nm.local(inner, n) for n in s['initial']] if isinstance(s['initial'], list)
+                            else nm.local(inner, s['initial']))
+        if s['children']:
+            d['children'] = kids
     if s['children']:
-        d['children'] = [_real_sdict(c) for c in s['children']]
-        d['transitions'] = [_real_tdict(t) for t in s['transitions']]
+        d['transitions'] = [_real_tdict(t, nm, inner) for t in s['transitions']]
+    if nm.use_enum and len(d) == 1:
+        return d['name']             # a bare Enum member
     return d
-
-
-def _real_mstate(ms):
-    if isinstance(ms, dict):
-        return [_real_mstate(x) for x in ms['par']]
-    return '_'.join(ms)
 
 
 def _scoped(m, scope):
@@ -336,7 +396,7 @@ def _scoped(m, scope):
     return st
 
 
-def _apply_op(m, o, hsm, reads):
+def _apply_op(m, o, hsm, reads, nm):
     k = o[0]
     if k == 'get':
         with _scoped(m, o[1] if len(o) > 1 else []):   # the markup describes the whole machine in any scope
@@ -344,11 +404,12 @@ def _apply_op(m, o, hsm, reads):
         e = enc_real_markup(mk, hsm)
         reads.append([e, e])
     elif k == 'add_state':
+        nm.declare(o[1], [o[2]])
         with _scoped(m, o[1]):
-            m.add_states(_real_sdict(o[2]))
+            m.add_states(_real_sdict(o[2], nm, o[1]))
     elif k == 'add_trans':
-        src = '*' if o[3] is None else list(o[3])
-        dst = {'same': '=', 'none': None}.get(o[4][0], o[4][1] if len(o[4]) > 1 else None)
+        src = '*' if o[3] is None else [nm.ref(o[1], x) for x in o[3]]
+        dst = {'same': '=', 'none': None}.get(o[4][0], nm.ref(o[1], o[4][1]) if len(o[4]) > 1 else None)
         with _scoped(m, o[1]):
             # one name is passed as a string, none as None: a list object would be shared by the transitions
             # created for several sources (listify keeps the object), see the report
@@ -363,9 +424,9 @@ def _apply_op(m, o, hsm, reads):
     elif k == 'reg_event':
         getattr(m, ['before_', 'after_', 'prepare_'][o[1]] + o[2])(o[3])
     elif k == 'set_model':
-        m.set_state(_real_mstate(o[2]), model=m.models[o[1]])
+        m.set_state(nm.mstate(o[2]), model=m.models[o[1]])
     elif k == 'add_model':
-        m.add_model(CLASSES[o[1]](), initial=_real_mstate(o[2]))
+        m.add_model(CLASSES[o[1]](), initial=nm.mstate(o[2]))
     elif k == 'direct_state':
         [m.on_enter, m.on_exit][o[1]]('_'.join(o[2]), o[3])
     elif k == 'set_list':
@@ -388,7 +449,7 @@ def _run_history(m, hist, seed, attr):
             res = repr(r)
         except Exception as e:  # compare exception types only
             res = type(e).__name__
-        steps.append([res, ENV['trace'][n0:], [repr(getattr(x, attr, None)) for x in m.models]])
+        steps.append([res, ENV['trace'][n0:], [repr(_norm(getattr(x, attr, None))) for x in m.models]])
     return steps
 
 
@@ -398,12 +459,16 @@ def impl_c14(case):
     hsm = case['hsm']
     cls = HierarchicalMarkupMachine if hsm else MarkupMachine
     d = case['desc']
-    kw = dict(model=None, states=[_real_sdict(s) for s in d['states']],
-              transitions=[_real_tdict(t) for t in d['transitions']],
+    ENV['paths'] = {}
+    nm = Names(bool(case.get('enum')), hsm)
+    nm.declare([], d['states'])
+    par_key = case['seed'] % 2 == 0
+    kw = dict(model=None, states=[_real_sdict(s, nm, [], par_key) for s in d['states']],
+              transitions=[_real_tdict(t, nm, []) for t in d['transitions']],
               send_event=d['send'], auto_transitions=d['auto'], model_attribute=d['attr'],
               model_override=d['override'], ignore_invalid_triggers=d['ignore'], queued=d['queued'])
     if d['initial'] is not None:
-        kw['initial'] = copy.deepcopy(d['initial'])
+        kw['initial'] = nm.ref([], d['initial']) if isinstance(d['initial'], str) else copy.deepcopy(d['initial'])
     else:
         kw['initial'] = None
     if d['name'] is not None:
@@ -412,10 +477,10 @@ def impl_c14(case):
         kw[key] = list(d[k])
     m = cls(**kw)
     for md in d['models']:
-        m.add_model(CLASSES[md['cls']](), initial=_real_mstate(md['state']))
+        m.add_model(CLASSES[md['cls']](), initial=nm.mstate(md['state']))
     reads = []
     for o in case['ops']:
-        _apply_op(m, o, hsm, reads)
+        _apply_op(m, o, hsm, reads, nm)
     final = json.loads(json.dumps(m.markup))
     e_final = enc_real_markup(final, hsm)
     m2 = cls(markup=json.loads(json.dumps(final)))
@@ -549,13 +614,26 @@ def gen(rng, i, tier):
         auto = False
     override = r.random() < 0.15
     ntop = r.randint(2, 4) if hsm else r.randint(1, 5)
+    # enum mode: every state of the description (and every state added later) is given as an Enum member, in
+    # 'name', 'initial' (single member or list of members), 'parallel' / 'children', transition sources and
+    # destinations, the machine's initial state and the models' states; the markup must still consist of names
+    use_enum = kf == 0 and r.random() < 0.3
     if r.random() < 0.4:
         names = TOP[:ntop]
         pool = TOP
     else:
-        pool = HSM_NAMES if hsm else FLAT_NAMES
+        pool = HSM_NAMES if hsm else [n for n in FLAT_NAMES if not (use_enum and n.startswith('_'))]
         names = r.sample(pool, ntop)
     states = [g.state(n, hsm, mign, 1) for n in names]
+    if use_enum and hsm and r.random() < 0.7:
+        # make sure there is a compound state whose initial substates are a LIST of members (parallel regions)
+        comp = [s for s in states if s['children']]
+        if comp:
+            tgt_s = r.choice(comp)
+        else:
+            tgt_s = states[-1]
+            tgt_s['children'] = [g.state(c, hsm, mign, 3) for c in r.sample(LOW, 2)]
+        tgt_s['initial'] = [c['name'] for c in tgt_s['children']]
     if kf == 1:
         r.choice(states)['ignore'] = False
     paths = all_paths(states)
@@ -575,7 +653,7 @@ def gen(rng, i, tier):
             srcs.remove(r.choice(srcs))      # not from every state: the heuristic must NOT fire, nothing is lost
         transitions += [dict(t, source=n, dest=tgt) for n in srcs]
     ini = r.choice(names)
-    if hsm and r.random() < 0.2:
+    if hsm and not use_enum and r.random() < 0.2:      # (a nested Enum member as machine initial registers a new state)
         ini = '_'.join(r.choice(paths))
     classes = ['ModelOA', 'ModelOB'] if override else ['ModelA', 'ModelB', 'ModelC']
     models = [dict(state=resolve(states, r.choice(paths)), cls=r.choice(classes)) for _ in range(r.randint(1, 3))]
@@ -693,7 +771,7 @@ def gen(rng, i, tier):
     if kf == 2:
         evs += [t['trigger'] for t in transitions if t['trigger'].startswith('to_')] * 3
     hist = [[r.randrange(nmodels), r.choice(evs)] for _ in range(r.randint(3, 10))]
-    return dict(hsm=hsm, desc=desc, ops=ops, hist=hist, seed=r.randrange(1000), kf_stream=kf)
+    return dict(hsm=hsm, desc=desc, ops=ops, hist=hist, seed=r.randrange(1000), kf_stream=kf, enum=use_enum)
 
 
 def _drop_nested(states, trg):
@@ -825,6 +903,10 @@ def stats(case, obs, dist):
         inc('undecodable')
         return
     inc('hsm' if case['hsm'] else 'flat')
+    if case.get('enum'):
+        inc('enum_hsm' if case['hsm'] else 'enum_flat')
+        if any(isinstance(s['initial'], list) for s in _all_sdicts(case)):
+            inc('enum_with_initial_list')
     for o in case['ops']:
         inc('op_' + o[0])
     inc('models', len(case['desc']['models']))
